@@ -13,6 +13,13 @@ Register session (`C14 new`): the DR7 / DR6 images are driven operation by opera
 
 History session (`C14 live ...`): the registry state machine; every answer carries the result, the register
 file of every thread (main first, the others sorted), and the watchpoint list.
+  clone                      a thread is created, notifications in the order the kernel happens to choose
+  clone cf                   ... the parent's PTRACE_EVENT_CLONE is handled first (`spawn t; evClone t`: the child's
+                             initial stop is consumed by `wait_one` inside that handler)
+  clone sf                   ... the child's PTRACE_EVENT_STOP is handled first (`spawn t; evStop t; evClone t`)
+  restart                    `restart_debugee` of the running debuggee
+  exitrerun                  the debuggee exits (inside the scope of its locals) and is started again; the answer
+                             also carries the watchpoint list between the two
 -/
 namespace Driver.C14
 open BsVerif BsVerif.Proto BsVerif.Dr BsVerif.Gen.Dr
@@ -21,6 +28,7 @@ structure St where
   d7 : Nat := 0
   d6 : Nat := 0
   sys : Sys := {}
+  tid : Nat := 1                     -- next abstract thread id
 
 def decCond? : String → Option BreakCondition
   | "w" => some .DataWrites
@@ -72,8 +80,12 @@ def sortStr (l : List String) : List String := l.foldr insertStr []
 def encWp (w : Wp) : String :=
   s!"{w.hw.addr}:{w.hw.size.bytes}:{encCond w.hw.cond}:{encOpt w.hw.reg}:{if w.scoped then "s" else "g"}"
 
+def encWpNoSlot (w : Wp) : String :=
+  s!"{w.hw.addr}:{w.hw.size.bytes}:{encCond w.hw.cond}:{if w.scoped then "s" else "g"}"
+
 def dump (r : Res) (s : Sys) : String :=
-  let ths := encImg s.main :: sortStr (s.others.map encImg)
+  -- every thread of the kernel: the registered ones and the newborn (cleared registers)
+  let ths := encImg s.main :: sortStr ((s.others ++ s.newborn.map (fun _ => kernelNewThread s.main)).map encImg)
   let cs := sortStr (s.comps.map fun c => s!"{c.addr}:{c.wps.length}")
   s!"{encRes r} | {";".intercalate ths} | {encList encWp s.wps} | {encList id cs}"
 
@@ -125,6 +137,12 @@ def step (s : St) : List String → St × String
     | some e => live s (.rmExpr e)
     | none => (s, "bad-op")
   | ["clone"] => live s .clone
+  | ["clone", "cf"] =>
+    let sys' := BsVerif.Dr.run s.sys [.spawn s.tid, .evClone s.tid]
+    ({ s with sys := sys', tid := s.tid + 1 }, dump .done sys')
+  | ["clone", "sf"] =>
+    let sys' := BsVerif.Dr.run s.sys [.spawn s.tid, .evStop s.tid, .evClone s.tid]
+    ({ s with sys := sys', tid := s.tid + 1 }, dump .done sys')
   | ["texit", i] => match decNat? i with
     | some i => live s (.threadExit i)
     | none => (s, "bad-op")
@@ -134,7 +152,13 @@ def step (s : St) : List String → St × String
   | ["scopeend", a] => match decNat? a with
     | some a => live s (.scopeEnd a)
     | none => (s, "bad-op")
-  | ["restart"] => live s .restart
+  | ["restart"] => live s (.restart true)
+  | ["exitrerun"] =>
+    let mid := match clearLocalDisableGlobal false s.sys with
+      | some s1 => encList encWpNoSlot s1.wps
+      | none => "panic"
+    let (r, sys') := BsVerif.Dr.step s.sys (.restart false)
+    ({ s with sys := sys' }, s!"exited {mid} # {dump r sys'}")
   -- the debuggee runs to its next sync point without creating a thread or touching a watched location
   | ["go"] => (s, dump .done s.sys)
   -- the main thread writes the listed addresses once each, in order: every write to the base address of an
